@@ -25,6 +25,12 @@ theorem tasksTree_under (dir : Path) : ∀ (t : Tree), ∀ x ∈ tasksTree dir t
     · obtain ⟨n, _, rest, hr⟩ := tasksKids_under dir kids x h
       exact ⟨n :: rest, by simp, hr⟩
     · subst h; exact ⟨["meta.json"], by simp, rfl⟩
+  | .lazy sd ms, x, h => by
+    simp only [tasksTree, List.mem_cons] at h
+    rcases h with h | h
+    · subst h; exact ⟨["meta.json"], by simp, rfl⟩
+    · obtain ⟨n, _, rest, hr⟩ := tasksKids_under dir ms x h
+      exact ⟨n :: rest, by simp, hr⟩
 theorem tasksKids_under (dir : Path) : ∀ (kids : List (String × Tree)), ∀ x ∈ tasksKids dir kids,
     Under dir (kids.map entryName) x.1
   | [], x, h => by simp [tasksKids] at h
@@ -49,6 +55,13 @@ theorem tasksKids_under (dir : Path) : ∀ (kids : List (String × Tree)), ∀ x
     simp only [tasksKids, List.mem_append] at h
     rcases h with h | h
     · obtain ⟨r, _, hr⟩ := tasksTree_under (dir ++ [k]) (.node b d ks) x h
+      exact ⟨k, by simp [entryName], r, by rw [hr]; simp⟩
+    · obtain ⟨n, hn, r, hr⟩ := tasksKids_under dir rest x h
+      exact ⟨n, by simp only [List.map_cons, List.mem_cons]; right; exact hn, r, hr⟩
+  | (k, .lazy sd ms) :: rest, x, h => by
+    simp only [tasksKids, List.mem_append] at h
+    rcases h with h | h
+    · obtain ⟨r, _, hr⟩ := tasksTree_under (dir ++ [k]) (.lazy sd ms) x h
       exact ⟨k, by simp [entryName], r, by rw [hr]; simp⟩
     · obtain ⟨n, hn, r, hr⟩ := tasksKids_under dir rest x h
       exact ⟨n, by simp only [List.map_cons, List.mem_cons]; right; exact hn, r, hr⟩
@@ -99,6 +112,19 @@ theorem tasksTree_nodup (dir : Path) : ∀ (t : Tree), PathSafe t → ((tasksTre
     apply under_ne
     intro he
     exact hnd.2.2 n hn "meta.json" (by simp) he
+  | .lazy sd ms, h => by
+    simp only [PathSafe] at h
+    obtain ⟨hnd, _, hk⟩ := h
+    rw [List.nodup_append] at hnd
+    simp only [tasksTree, List.map_cons, List.nodup_cons]
+    refine ⟨?_, tasksKids_nodup dir ms hk hnd.1⟩
+    intro hmem
+    obtain ⟨x, hx, hxe⟩ := List.mem_map.1 hmem
+    obtain ⟨n, hn, r, hr⟩ := tasksKids_under dir ms x hx
+    rw [hr] at hxe
+    have := List.append_cancel_left hxe
+    simp only [List.cons.injEq] at this
+    exact hnd.2.2 n hn "meta.json" (by simp) this.1
 theorem tasksKids_nodup (dir : Path) : ∀ (kids : List (String × Tree)), PathSafeKids kids →
     (kids.map entryName).Nodup → ((tasksKids dir kids).map (·.1)).Nodup
   | [], _, _ => by simp [tasksKids]
@@ -125,25 +151,31 @@ theorem tasksKids_nodup (dir : Path) : ∀ (kids : List (String × Tree)), PathS
       | node bt d ks =>
         have := tasksTree_nodup (dir ++ [k]) (.node bt d ks) hs.1
         simpa [tasksKids] using this
+      | lazy sd ms =>
+        have := tasksTree_nodup (dir ++ [k]) (.lazy sd ms) hs.1
+        simpa [tasksKids] using this
 end
 
 
 /-! ### what the saved directory contains, and that `load` reads it back -/
 
+def isColl : Tree → Bool
+  | .leaf .. => false
+  | _ => true
+
 mutual
-/-- a leaf without elements has no bytes -/
+/-- a leaf without elements has no bytes; the members of a lazy stack are tensordicts keyed by their
+    index -/
 def WF : Tree → Prop
   | .leaf _ s b => numel s = 0 → b = []
   | .nontensor .. => True
   | .node _ _ kids => WFKids kids
+  | .lazy _ ms =>
+    (∀ j (h : j < ms.length), (ms[j]'h).1 = toString j) ∧ (∀ p ∈ ms, isColl p.2 = true) ∧ WFKids ms
 def WFKids : List (String × Tree) → Prop
   | [] => True
   | (_, t) :: rest => WF t ∧ WFKids rest
 end
-
-def isColl : Tree → Bool
-  | .leaf .. => false
-  | _ => true
 
 /-- `fs` holds what the tasks `ts` wrote (whatever else it holds) -/
 def Exactly (fs : FS) (_dir : Path) (ts : List (Path × File)) : Prop :=
@@ -202,8 +234,8 @@ theorem kid_task_path (dir : Path) (b : List Nat) (d : String) (kids : List (Str
     simp only [List.cons.injEq] at this
     exact hnd.2.2 (entryName kid) (List.mem_map_of_mem hk) "meta.json" (by simp) this.1.symm
 
-theorem descend (fs : FS) (dir : Path) (b : List Nat) (d : String) (kids : List (String × Tree))
-    (he : Exactly fs dir (tasksTree dir (.node b d kids)))
+theorem descendKids (fs : FS) (dir : Path) (kids : List (String × Tree))
+    (he : ∀ x ∈ tasksKids dir kids, fs x.1 = some x.2)
     (k : String) (t : Tree) (hk : (k, t) ∈ kids) (hc : isColl t = true) :
     Exactly fs (dir ++ [k]) (tasksTree (dir ++ [k]) t) := by
   have hsub : ∀ x, x ∈ tasksTree (dir ++ [k]) t ↔ x ∈ tasksKids dir [(k, t)] := by
@@ -212,11 +244,16 @@ theorem descend (fs : FS) (dir : Path) (b : List Nat) (d : String) (kids : List 
     | leaf _ _ _ => simp [isColl] at hc
     | nontensor _ _ => simp [tasksKids]
     | node _ _ _ => simp [tasksKids]
+    | lazy _ _ => simp [tasksKids]
   intro x hx
   apply he
-  simp only [tasksTree, List.mem_append]
-  left
   exact (mem_tasksKids dir kids x).2 ⟨(k, t), hk, (hsub x).1 hx⟩
+
+theorem descend (fs : FS) (dir : Path) (b : List Nat) (d : String) (kids : List (String × Tree))
+    (he : Exactly fs dir (tasksTree dir (.node b d kids)))
+    (k : String) (t : Tree) (hk : (k, t) ∈ kids) (hc : isColl t = true) :
+    Exactly fs (dir ++ [k]) (tasksTree (dir ++ [k]) t) :=
+  descendKids fs dir kids (fun x hx => he x (by simp only [tasksTree, List.mem_append]; left; exact hx)) k t hk hc
 
 theorem leaf_cell (fs : FS) (dir : Path) (b : List Nat) (d : String) (kids : List (String × Tree))
     (he : Exactly fs dir (tasksTree dir (.node b d kids)))
@@ -245,6 +282,32 @@ theorem safe_of_mem : ∀ (kids : List (String × Tree)) (k : String) (t : Tree)
     · cases h; exact ⟨hs.1, hw.1⟩
     · exact safe_of_mem rest k t h hs.2 hw.2
 
+/-- the members are enumerated by index: if member `j` of `ms'` has key `toString (i + j)` and its
+    directory loads as the member, `loadMembers` bounded by their number returns exactly them -/
+theorem loadMembers_ok (f : Nat) (fs : FS) (dir : Path) : ∀ (ms' : List (String × Tree)) (i : Nat),
+    (∀ j (h : j < ms'.length), (ms'[j]'h).1 = toString (i + j)) →
+    (∀ kid ∈ ms', load f fs (dir ++ [kid.1]) = some kid.2) →
+    loadMembers f fs dir i ms'.length = some ms'
+  | [], i, _, _ => by simp [loadMembers]
+  | (k, t) :: rest, i, hk, hl => by
+    have h0 : k = toString i := by
+      have := hk 0 (by simp)
+      simp only [List.getElem_cons_zero, Nat.add_zero] at this
+      exact this
+    have hload := hl (k, t) List.mem_cons_self
+    have hrest := loadMembers_ok f fs dir rest (i + 1)
+      (by
+        intro j h
+        have := hk (j + 1) (by simp; omega)
+        simp only [List.getElem_cons_succ] at this
+        rw [this]; congr 1; omega)
+      (fun kid hkid => hl kid (List.mem_cons_of_mem _ hkid))
+    simp only [List.length_cons, loadMembers]
+    rw [← h0]
+    simp only at hload
+    rw [hload, hrest]
+    rfl
+
 /-- `load` with enough budget reads back what the tasks wrote -/
 theorem load_ok : ∀ (fuel : Nat) (t : Tree) (dir : Path) (fs : FS), isColl t = true → PathSafe t → WF t →
     depth t ≤ fuel → Exactly fs dir (tasksTree dir t) → load fuel fs dir = some t := by
@@ -256,6 +319,7 @@ theorem load_ok : ∀ (fuel : Nat) (t : Tree) (dir : Path) (fs : FS), isColl t =
     | leaf _ _ _ => simp [isColl] at hc
     | nontensor _ _ => simp [depth] at hd
     | node _ _ _ => simp [depth] at hd
+    | lazy _ _ => simp [depth] at hd
   | succ f ih =>
     intro t dir fs hc hs hw hd he
     cases t with
@@ -311,13 +375,43 @@ theorem load_ok : ∀ (fuel : Nat) (t : Tree) (dir : Path) (fs : FS), isColl t =
             rw [List.map_cons]
             change loadEntries f fs dir ((k, MetaEntry.coll "TensorDict") :: _) = _
             simp only [loadEntries, hrest, this]
+          | lazy sd2 ms2 =>
+            have hex := descend fs dir bt dv kids he k (.lazy sd2 ms2) hmem rfl
+            have hsw := safe_of_mem kids k _ hmem hsk hwk
+            have := ih (.lazy sd2 ms2) (dir ++ [k]) fs rfl hsw.1 hsw.2
+              (by have := depth_le_of_mem kids k _ hmem; omega) hex
+            rw [List.map_cons]
+            change loadEntries f fs dir ((k, MetaEntry.coll "LazyStackedTensorDict") :: _) = _
+            simp only [loadEntries, hrest, this]
       have hk := key kids (fun x hx => hx)
       simp only [load, hm]
       have hkind : ¬ (nodeMeta bt dv kids).kind = "NonTensorData" := by simp [nodeMeta]
       simp only [hkind, if_false]
       have hent : (nodeMeta bt dv kids).entries = kids.map fun p => (p.1, metaEntry p.2) := rfl
+      have hkind2 : ¬ (nodeMeta bt dv kids).kind = "LazyStackedTensorDict" := by simp [nodeMeta]
+      simp only [hkind2, if_false]
       rw [hent, hk]
       rfl
+    | lazy sd ms =>
+      have hm := he (dir ++ ["meta.json"], .json (lazyMeta sd ms.length)) (by simp [tasksTree])
+      simp only at hm
+      have hdk : depthKids ms ≤ f := by simp only [depth] at hd; omega
+      have hsk : PathSafeKids ms := by simp only [PathSafe] at hs; exact hs.2.2
+      simp only [WF] at hw
+      obtain ⟨hkeys, hcoll, hwk⟩ := hw
+      have hkt : ∀ x ∈ tasksKids dir ms, fs x.1 = some x.2 :=
+        fun x hx => he x (by simp only [tasksTree, List.mem_cons]; right; exact hx)
+      -- every member is read back from its own directory
+      have hmem : ∀ kid ∈ ms, load f fs (dir ++ [kid.1]) = some kid.2 := by
+        intro kid hkid
+        obtain ⟨k, t⟩ := kid
+        have hex := descendKids fs dir ms hkt k t hkid (hcoll _ hkid)
+        have hsw := safe_of_mem ms k t hkid hsk hwk
+        exact ih t (dir ++ [k]) fs (hcoll _ hkid) hsw.1 hsw.2
+          (by have := depth_le_of_mem ms k t hkid; omega) hex
+      have hall := loadMembers_ok f fs dir ms 0 (by intro j h; simpa using hkeys j h) hmem
+      simp only [load, hm, lazyMeta]
+      simp [hall]
 
 /-! ### memmap_like -/
 
@@ -327,6 +421,7 @@ def skeleton : Tree → Tree
   | .leaf d s _ => .leaf d s []
   | .nontensor d b => .nontensor d b
   | .node b d kids => .node b d (skeletonKids kids)
+  | .lazy sd ms => .lazy sd (skeletonKids ms)
 def skeletonKids : List (String × Tree) → List (String × Tree)
   | [] => []
   | (k, t) :: rest => (k, skeleton t) :: skeletonKids rest
@@ -337,6 +432,7 @@ theorem like_skeleton : ∀ t : Tree, skeleton (likeTree t) = skeleton t
   | .leaf .. => by simp [likeTree, skeleton]
   | .nontensor .. => by simp [likeTree, skeleton]
   | .node b d kids => by simp [likeTree, skeleton, like_skeletonKids kids]
+  | .lazy sd ms => by simp [likeTree, skeleton, like_skeletonKids ms]
 theorem like_skeletonKids : ∀ kids : List (String × Tree), skeletonKids (likeKids kids) = skeletonKids kids
   | [] => by simp [likeKids, skeletonKids]
   | (k, t) :: rest => by simp [likeKids, skeletonKids, like_skeleton t, like_skeletonKids rest]
@@ -348,6 +444,12 @@ theorem like_tasks_paths (dir : Path) : ∀ t : Tree,
   | .leaf .. => by simp [likeTree, tasksTree]
   | .nontensor .. => by simp [likeTree, tasksTree]
   | .node b d kids => by simp [likeTree, tasksTree, like_tasksKids_paths dir kids]
+  | .lazy sd ms => by
+    have hl : ∀ l : List (String × Tree), (likeKids l).length = l.length := by
+      intro l; induction l with
+      | nil => rfl
+      | cons a as ih => obtain ⟨k, t⟩ := a; simp [likeKids, ih]
+    simp [likeTree, tasksTree, like_tasksKids_paths dir ms, hl]
 theorem like_tasksKids_paths (dir : Path) : ∀ kids : List (String × Tree),
     (tasksKids dir (likeKids kids)).map (·.1) = (tasksKids dir kids).map (·.1)
   | [] => by simp [likeKids, tasksKids]
@@ -358,6 +460,10 @@ theorem like_tasksKids_paths (dir : Path) : ∀ kids : List (String × Tree),
     simp only [likeKids, likeTree, tasksKids, List.map_append, like_tasksKids_paths dir rest]
   | (k, .node b d ks) :: rest => by
     have := like_tasks_paths (dir ++ [k]) (.node b d ks)
+    simp only [likeTree] at this
+    simp only [likeKids, likeTree, tasksKids, List.map_append, like_tasksKids_paths dir rest, this]
+  | (k, .lazy sd ms) :: rest => by
+    have := like_tasks_paths (dir ++ [k]) (.lazy sd ms)
     simp only [likeTree] at this
     simp only [likeKids, likeTree, tasksKids, List.map_append, like_tasksKids_paths dir rest, this]
 end
